@@ -1964,7 +1964,7 @@ class tensor:
                 Callable[[np.ndarray, np.ndarray], np.ndarray], function_handle
             )
             Y = inputs[0]
-            if not isinstance(Y, (int, float)):
+            if not isinstance(Y, (int, float, np.number)):
                 Y = self._tt_to_tensor(Y)
             return self.tenfun_binary(binary_function_handle, Y)
 
@@ -2025,7 +2025,7 @@ class tensor:
         True
         """
         X = self.data
-        if not isinstance(other, (float, int)):
+        if not isinstance(other, (float, int, np.number)):
             Y = other.data
         else:
             Y = np.array(other, order=self.order)
@@ -2061,7 +2061,7 @@ class tensor:
         """
         sz = self.shape
         for i, an_input in enumerate(inputs):
-            if isinstance(an_input, (float, int)):
+            if isinstance(an_input, (float, int, np.number)):
                 assert False, f"Argument {i} is a scalar but expected a tensor"
             elif sz != an_input.shape:
                 assert (
